@@ -159,6 +159,233 @@ impl FileAndPathHelper for MemHelper {
 }
 
 // ---------------------------------------------------------------------------------------------
+// specification side of the exploration outcomes (nothing here calls samply's own parsing code)
+
+/// ALLOC, non-NOBITS sections of the ELF64 fixture `example-linux` as (start, end) in relative addresses
+fn example_linux_sections() -> &'static Vec<(u64, u64)> {
+    static SECS: OnceLock<Vec<(u64, u64)>> = OnceLock::new();
+    SECS.get_or_init(|| {
+        let Some(d) = base_files().get("example-linux") else { return vec![] };
+        let d: &[u8] = d;
+        let rd16 = |o: usize| d.get(o..o + 2).map(|b| u16::from_le_bytes([b[0], b[1]]) as usize);
+        let rd32 = |o: usize| d.get(o..o + 4).map(|b| u32::from_le_bytes([b[0], b[1], b[2], b[3]]));
+        let rd64 = |o: usize| d.get(o..o + 8).map(|b| u64::from_le_bytes(b.try_into().unwrap()));
+        let inner = || -> Option<Vec<(u64, u64)>> {
+            if d.get(..6)? != [0x7f, b'E', b'L', b'F', 2, 1] {
+                return None;
+            }
+            let (phoff, phentsize, phnum) = (rd64(0x20)? as usize, rd16(0x36)?, rd16(0x38)?);
+            let mut base = None;
+            for i in 0..phnum {
+                let o = phoff + i * phentsize;
+                if rd32(o)? == 1 {
+                    base = Some(rd64(o + 0x10)?);
+                    break;
+                }
+            }
+            let base = base?;
+            let (shoff, shentsize, shnum) = (rd64(0x28)? as usize, rd16(0x3a)?, rd16(0x3c)?);
+            let mut v = Vec::new();
+            for i in 0..shnum {
+                let o = shoff + i * shentsize;
+                let (ty, flags, addr, size) = (rd32(o + 4)?, rd64(o + 8)?, rd64(o + 0x10)?, rd64(o + 0x20)?);
+                if flags & 2 != 0 && ty != 8 && size > 0 && addr >= base {
+                    v.push((addr - base, addr - base + size));
+                }
+            }
+            Some(v)
+        };
+        inner().unwrap_or_default()
+    })
+}
+
+fn hex_field(v: &serde_json::Value, key: &str) -> Option<u64> {
+    let s = v.get(key)?.as_str()?;
+    u64::from_str_radix(s.strip_prefix("0x")?, 16).ok()
+}
+
+/// Clause (b) of the property on one response object: a result of the endpoint or an object with an error
+/// message. Returns the class for the statistics or the reason of the violation.
+fn response_shape(path: &str, body: &str, o: &serde_json::Map<String, serde_json::Value>) -> Result<&'static str, String> {
+    use serde_json::Value;
+    if let Some(e) = o.get("error") {
+        return match e {
+            Value::String(m) if !m.is_empty() => Ok("error"),
+            _ => Err("error-not-a-message".to_string()),
+        };
+    }
+    let all = |keys: &[&str], pred: fn(&Value) -> bool| keys.iter().all(|k| o.get(*k).is_some_and(pred));
+    match path {
+        "/symbolicate/v5" => {
+            let Some(Value::Array(results)) = o.get("results") else { return Err("no-results-array".to_string()) };
+            for r in results {
+                let ok = r.get("stacks").is_some_and(Value::is_array) && r.get("found_modules").is_some_and(Value::is_object);
+                if !ok {
+                    return Err("result-without-stacks-or-found_modules".to_string());
+                }
+            }
+            let req: Option<Value> = serde_json::from_str(body).ok();
+            let jobs = req.as_ref().and_then(|v| v.get("jobs")).and_then(Value::as_array).map(|a| a.len());
+            if results.len() == 1 || jobs == Some(results.len()) {
+                Ok("result")
+            } else {
+                Err(format!("results={}-jobs={:?}", results.len(), jobs))
+            }
+        }
+        "/source/v1" => {
+            if all(&["file", "source"], Value::is_string) { Ok("result") } else { Err("source-result-keys".to_string()) }
+        }
+        "/asm/v1" => {
+            if !(all(&["startAddress", "size", "arch"], Value::is_string) && all(&["syntax", "instructions"], Value::is_array)) {
+                return Err("asm-result-keys".to_string());
+            }
+            let v = Value::Object(o.clone());
+            let (Some(_), Some(size)) = (hex_field(&v, "startAddress"), hex_field(&v, "size")) else {
+                return Err("asm-hex-fields".to_string());
+            };
+            // listed offsets: numbers, strictly increasing, below the reported size
+            let mut prev: Option<u64> = None;
+            for ins in o["instructions"].as_array().unwrap() {
+                let Some(off) = ins.as_array().and_then(|a| a.first()).and_then(Value::as_u64) else {
+                    return Err("asm-instruction-shape".to_string());
+                };
+                if prev.is_some_and(|p| off <= p) || off >= size.max(1) {
+                    return Err(format!("asm-offset-{off}-size-{size}"));
+                }
+                prev = Some(off);
+            }
+            Ok("result")
+        }
+        _ => Err("result-on-unknown-path".to_string()),
+    }
+}
+
+/// Clause (d) "never overflows", observed end to end on `/asm/v1` results for the x86-64 fixture: the listing
+/// covers the requested length as far as the section reaches (a wrapped or truncated read length shows up as
+/// a listing that stops early). `size + 15 >= min(requested, bytes to the section end)`.
+fn asm_short_listing(body: &str, o: &serde_json::Map<String, serde_json::Value>) -> Option<String> {
+    let req: serde_json::Value = serde_json::from_str(body).ok()?;
+    let lib = req.get("name").and_then(|v| v.as_str()).or(req.get("debugName").and_then(|v| v.as_str()))?;
+    if lib != "example-linux" || o.get("arch")?.as_str()? != "x86_64" {
+        return None;
+    }
+    let (start, want) = (hex_field(&req, "startAddress")?, hex_field(&req, "size")?);
+    let resp = serde_json::Value::Object(o.clone());
+    let (rstart, rsize) = (hex_field(&resp, "startAddress")?, hex_field(&resp, "size")?);
+    if rstart != start {
+        return Some(format!("start={start:#x} reported={rstart:#x}"));
+    }
+    let (_, end) = example_linux_sections().iter().find(|(a, b)| *a <= start && start < *b)?;
+    let need = want.min(end - start);
+    (rsize + 15 < need).then(|| format!("size={rsize:#x} requested={want:#x} available={:#x}", end - start))
+}
+
+/// CPU time consumed by the calling thread
+fn own_cpu() -> Duration {
+    unsafe {
+        let mut ts: libc::timespec = std::mem::zeroed();
+        libc::clock_gettime(libc::CLOCK_THREAD_CPUTIME_ID, &mut ts);
+        Duration::new(ts.tv_sec as u64, ts.tv_nsec as u32)
+    }
+}
+
+fn size_class(n: usize) -> &'static str {
+    match n {
+        0..=2047 => "<2K",
+        2048..=65535 => "<64K",
+        65536..=1048575 => "<1M",
+        1048576..=8388607 => "<8M",
+        _ => ">=8M",
+    }
+}
+
+fn look_line(a: u32, r: Result<Option<samply_symbols::SyncAddressInfo>, ()>, stats: &mut Stats) -> String {
+    let opt = |o: Option<String>| o.unwrap_or_else(|| "none".to_string());
+    match r {
+        Err(()) => "panic".to_string(),
+        Ok(None) => "none".to_string(),
+        Ok(Some(info)) => {
+            // what the API layers compute from a lookup result without checking (symbolicate/mod.rs:231, :237)
+            if a.checked_sub(info.symbol.address).is_none() {
+                return "neg-offset".to_string();
+            }
+            let (n, frames) = match &info.frames {
+                None => ("none".to_string(), &[][..]),
+                Some(FramesLookupResult::Available(fr)) => (fr.len().to_string(), &fr[..]),
+                Some(_) => ("ext".to_string(), &[][..]),
+            };
+            if n == "0" {
+                return "empty-frames".to_string();
+            }
+            stats.bump(&format!("bpmap_frames={}", frames.len().min(17)));
+            let s = &info.symbol;
+            let mut line = format!("sym {} {} {} {n}", s.address, opt(s.size.map(|v| v.to_string())), hex(s.name.as_bytes()));
+            for fr in frames {
+                line.push_str(&format!(
+                    " , frame {} {} {}",
+                    opt(fr.function.as_ref().map(|s| hex(s.as_bytes()))),
+                    opt(fr.file_path.as_ref().map(|p| hex(p.raw_path().as_bytes()))),
+                    opt(fr.line_number.map(|v| v.to_string()))
+                ));
+            }
+            line
+        }
+    }
+}
+
+/// deterministic large `.sym` text: `nfuncs` FUNC blocks (every third with an INLINE record) with `nlines`
+/// line records each, `nfiles` FILE records in descending order, PUBLIC records in between, ascending addresses
+fn big_sym(nfuncs: u64, nlines: u64, nfiles: u64, seed: u64) -> (Vec<u8>, Vec<u32>) {
+    use std::io::Write;
+    let mut rng = Rng::new(seed);
+    let mut t = Vec::with_capacity((nfuncs * (48 + nlines * 16) + nfiles * 40) as usize);
+    let _ = writeln!(t, "MODULE Linux x86_64 {MODULE_ID} t");
+    for i in (0..nfiles).rev() {
+        let _ = writeln!(t, "FILE {i} /builds/worker/checkouts/gecko/dir{}/file{i}.cpp", i % 97);
+    }
+    for i in 0..(nfiles / 4).max(1) {
+        let _ = writeln!(t, "INLINE_ORIGIN {i} inlined_function_number_{i}(int, char const*)");
+    }
+    let mut addrs = vec![0u32, 0xffff_ffff];
+    let mut a: u64 = 0x1000;
+    // blocks in ascending address order for an odd seed, in DESCENDING order for an even one (the worst case of
+    // an insertion-based sort; dump_syms writes ascending files, the property quantifies over all)
+    let mut blocks: Vec<Vec<u8>> = Vec::with_capacity(nfuncs as usize);
+    for f in 0..nfuncs {
+        let mut t = Vec::with_capacity(96 + 16 * nlines as usize);
+        let per = 4 + rng.below(12);
+        let size = per * nlines.max(1);
+        if a + size + 16 > 0xffff_0000 {
+            break;
+        }
+        let _ = writeln!(t, "FUNC {a:x} {size:x} 0 function_number_{f}(std::vector<int, std::allocator<int> > const&)");
+        if f % 3 == 0 {
+            let _ = writeln!(t, "INLINE 0 {} {} {} {a:x} {:x}", f % 1000, f % nfiles.max(1), f % (nfiles / 4).max(1), per);
+        }
+        for l in 0..nlines {
+            let _ = writeln!(t, "{:x} {per:x} {} {}", a + l * per, 1 + (f + l) % 5000, (f * 7 + l) % nfiles.max(1));
+        }
+        if f % 64 == 0 {
+            addrs.extend([a as u32, (a + size - 1) as u32, (a + size) as u32]);
+        }
+        a += size;
+        if f % 5 == 4 {
+            let _ = writeln!(t, "PUBLIC {a:x} 0 public_symbol_{f}");
+            a += 16;
+        }
+        blocks.push(t);
+    }
+    if seed % 2 == 0 {
+        blocks.reverse();
+    }
+    for b in &blocks {
+        t.extend_from_slice(b);
+    }
+    addrs.push(a as u32);
+    (t, addrs)
+}
+
+// ---------------------------------------------------------------------------------------------
 // executing one operation
 
 fn utf8(hexs: &str) -> Option<String> {
@@ -203,6 +430,78 @@ fn join_toks(prefix: &str, toks: &[&[u8]], suffix: &str) -> Vec<u8> {
     }
     v.extend_from_slice(suffix.as_bytes());
     v
+}
+
+fn run_api(overlay: HashMap<String, Bytes>, path: &str, body: &str) -> String {
+    let sm = SymbolManager::with_helper(MemHelper { overlay });
+    futures::executor::block_on(Api::new(&sm).query_api(path, body))
+}
+
+/// `found_modules` / `module_errors` are serialized from a `HashMap`: with two or more entries the order of the
+/// text changes from call to call, so such a response cannot be written into an operation line
+fn order_independent(resp: &str) -> bool {
+    fn walk(v: &serde_json::Value) -> bool {
+        match v {
+            serde_json::Value::Object(o) => o.iter().all(|(k, x)| {
+                let hashed = k == "found_modules" || k == "module_errors";
+                !(hashed && x.as_object().is_some_and(|m| m.len() > 1)) && walk(x)
+            }),
+            serde_json::Value::Array(a) => a.iter().all(walk),
+            _ => true,
+        }
+    }
+    serde_json::from_str::<serde_json::Value>(resp).map(|v| walk(&v)).unwrap_or(true)
+}
+
+/// Turns some `api` operations of a case into `apiresp` operations: the request is run now (on a helper
+/// thread, given up after 20 s) and the response text is written into the operation, so that the Lean judge can
+/// run its own JSON recogniser on the text the implementation returns when the case is executed.
+fn with_response_texts(ops: Vec<String>, rng: &mut Rng, num: u64, den: u64) -> Vec<String> {
+    let mut overlay: HashMap<String, Bytes> = HashMap::new();
+    ops.into_iter()
+        .map(|l| {
+            let w: Vec<&str> = l.split_whitespace().collect();
+            match w.as_slice() {
+                ["file", name, data] => {
+                    if let Some(name) = utf8(name) {
+                        overlay.insert(name, Arc::from(unhex(data).into_boxed_slice()));
+                    }
+                    l
+                }
+                ["api", path, body] if rng.chance(num, den) => {
+                    let (Some(p), Some(b)) = (utf8(path), utf8(body)) else { return l };
+                    let ov = overlay.clone();
+                    let (tx, rx) = std::sync::mpsc::channel();
+                    let spawned = std::thread::Builder::new().stack_size(16 << 20).spawn(move || {
+                        let _ = tx.send(catch_unwind(AssertUnwindSafe(|| run_api(ov, &p, &b))).ok());
+                    });
+                    let Ok(handle) = spawned else { return l };
+                    // given up after 3 s of CPU time of the helper thread (or 60 s of wall time): a request that
+                    // hangs stays a plain `api` operation and is reported as `hang` when the case is executed
+                    let started = std::time::Instant::now();
+                    let resp = loop {
+                        match rx.recv_timeout(Duration::from_millis(100)) {
+                            Ok(r) => break r,
+                            Err(std::sync::mpsc::RecvTimeoutError::Disconnected) => break None,
+                            Err(std::sync::mpsc::RecvTimeoutError::Timeout) => {
+                                let burnt = thread_cpu(&handle).unwrap_or(started.elapsed());
+                                if burnt >= Duration::from_secs(3) || started.elapsed() >= Duration::from_secs(60) {
+                                    break None;
+                                }
+                            }
+                        }
+                    };
+                    match resp {
+                        Some(resp) if resp.len() <= 65536 && order_independent(&resp) => {
+                            format!("apiresp {path} {body} {}", hex(resp.as_bytes()))
+                        }
+                        _ => l,
+                    }
+                }
+                _ => l,
+            }
+        })
+        .collect()
 }
 
 fn exec_kernel(w: &[&str], stats: &mut Stats) -> Option<String> {
@@ -346,6 +645,22 @@ fn exec_kernel(w: &[&str], stats: &mut Stats) -> Option<String> {
                 }
             })
         }
+        ["errjson", m] => {
+            let m = utf8(m)?;
+            guarded(|| format!("json {}", hex(serde_json::json!({ "error": m }).to_string().as_bytes())))
+        }
+        ["badurl", p] => {
+            let p = utf8(p)?;
+            if ["/symbolicate/v5", "/source/v1", "/asm/v1"].contains(&p.as_str()) {
+                "known-path".to_string()
+            } else {
+                guarded(|| {
+                    let sm = SymbolManager::with_helper(MemHelper { overlay: HashMap::new() });
+                    let r = futures::executor::block_on(Api::new(&sm).query_api(&p, "{}"));
+                    format!("json {}", hex(r.as_bytes()))
+                })
+            }
+        }
         _ => return None,
     };
     let cls = if w[0] == "symindex" { out.replace(' ', "_").chars().take(48).collect::<String>() } else { out.split(' ').next().unwrap_or("").to_string() };
@@ -358,32 +673,75 @@ fn exec_explore(w: &[&str], overlay: &mut HashMap<String, Bytes>, stats: &mut St
     let out = match w {
         ["file", name, data] => {
             let name = utf8(name)?;
-            overlay.insert(name, Arc::from(unhex(data).into_boxed_slice()));
+            let data = unhex(data);
+            if name.ends_with(".sym") {
+                stats.bump(&format!("served_sym_size{}", size_class(data.len())));
+            } else if name.ends_with(".symindex") {
+                stats.bump(&format!("served_symindex_{}", if BreakpadIndex::parse_symindex_file(&data[..]).is_ok() { "accepted(File)" } else { "rejected(Owned)" }));
+            }
+            overlay.insert(name, Arc::from(data.into_boxed_slice()));
             return Some("set".to_string());
         }
         ["api", path, body] => {
             let (path, body) = (utf8(path)?, utf8(body)?);
             let ov = overlay.clone();
             let mut class = "";
+            let (mut arch, mut jobs, mut max_inlines) = (String::new(), 0usize, 0usize);
             let r = guarded(|| {
                 let sm = SymbolManager::with_helper(MemHelper { overlay: ov });
                 let resp = futures::executor::block_on(Api::new(&sm).query_api(&path, &body));
                 match serde_json::from_str::<serde_json::Value>(&resp) {
-                    Ok(serde_json::Value::Object(o)) => {
-                        class = if o.contains_key("error") { "error" } else { "result" };
-                        "fine".to_string()
-                    }
+                    Ok(serde_json::Value::Object(o)) => match response_shape(&path, &body, &o) {
+                        Ok(c) => {
+                            class = c;
+                            if c == "result" && path == "/asm/v1" {
+                                arch = o.get("arch").and_then(|a| a.as_str()).unwrap_or("?").to_string();
+                                if let Some(why) = asm_short_listing(&body, &o) {
+                                    return format!("short-listing {why}");
+                                }
+                            }
+                            if c == "result" && path == "/symbolicate/v5" {
+                                let rs = o["results"].as_array().unwrap();
+                                jobs = rs.len();
+                                for r in rs {
+                                    for st in r["stacks"].as_array().into_iter().flatten() {
+                                        for fr in st.as_array().into_iter().flatten() {
+                                            if let Some(i) = fr.get("inlines").and_then(|i| i.as_array()) {
+                                                max_inlines = max_inlines.max(i.len());
+                                            }
+                                        }
+                                    }
+                                }
+                            }
+                            "fine".to_string()
+                        }
+                        Err(why) => format!("badshape {why}"),
+                    },
                     Ok(_) => "notobject".to_string(),
                     Err(_) => "badjson".to_string(),
                 }
             });
+            if !arch.is_empty() {
+                stats.bump(&format!("api_asm_arch_{arch}"));
+            }
+            if jobs > 0 {
+                stats.bump(&format!("api_symbolicate_jobs={}", jobs.min(5)));
+                stats.bump(&format!("api_symbolicate_max_inlines={}", max_inlines.min(17)));
+            }
             let ep = match path.as_str() {
                 "/symbolicate/v5" => "symbolicate",
                 "/source/v1" => "source",
                 "/asm/v1" => "asm",
                 _ => "otherpath",
             };
-            stats.bump(&format!("api_{ep}_{}", if r == "fine" { class } else { r.as_str() }));
+            stats.bump(&format!("api_{ep}_{}", if r == "fine" { class } else { r.split(' ').next().unwrap_or("") }));
+            r
+        }
+        ["apiresp", path, body, _expected] => {
+            let (path, body) = (utf8(path)?, utf8(body)?);
+            let ov = overlay.clone();
+            let r = guarded(|| format!("resp {}", hex(run_api(ov, &path, &body).as_bytes())));
+            stats.bump(&format!("apiresp_{}", r.split(' ').next().unwrap_or("")));
             r
         }
         ["lookup", name, addrs @ ..] => {
@@ -391,6 +749,7 @@ fn exec_explore(w: &[&str], overlay: &mut HashMap<String, Bytes>, stats: &mut St
             let ov = overlay.clone();
             let addrs: Vec<u32> = addrs.iter().filter_map(|a| a.parse().ok()).collect();
             let mut class = "loaderr";
+            let mut max_frames = 0usize;
             let r = guarded(|| {
                 let sm = SymbolManager::with_helper(MemHelper { overlay: ov });
                 match futures::executor::block_on(sm.load_symbol_map_from_location(Loc(name), None)) {
@@ -409,6 +768,7 @@ fn exec_explore(w: &[&str], overlay: &mut HashMap<String, Bytes>, stats: &mut St
                                     if fr.is_empty() {
                                         return "empty-frames".to_string();
                                     }
+                                    max_frames = max_frames.max(fr.len());
                                 }
                                 let _end = i.symbol.size.and_then(|s| i.symbol.address.checked_add(s));
                             }
@@ -424,6 +784,9 @@ fn exec_explore(w: &[&str], overlay: &mut HashMap<String, Bytes>, stats: &mut St
                 "fine".to_string()
             });
             stats.bump(&format!("lookup_{}", if r == "fine" { class } else { r.as_str() }));
+            if max_frames > 0 {
+                stats.bump(&format!("lookup_max_frames={}", max_frames.min(17)));
+            }
             r
         }
         ["symcreate", chunk, data] => {
@@ -448,11 +811,121 @@ fn exec_explore(w: &[&str], overlay: &mut HashMap<String, Bytes>, stats: &mut St
             stats.bump(&format!("symcreate_{}", if r == "fine" { class } else { r.as_str() }));
             r
         }
+        ["bpmap", text, idx, addrs @ ..] => {
+            let (text, idx) = (unhex(text), unhex(idx));
+            // `iter` among the addresses = `iter_symbols()` collected at that point (None in the list)
+            let addrs: Vec<Option<u32>> = addrs.iter().filter_map(|a| if *a == "iter" { Some(None) } else { a.parse().ok().map(Some) }).collect();
+            let mut st = Stats::default();
+            let r = guarded(|| {
+                if BreakpadIndex::parse_symindex_file(&idx[..]).is_err() {
+                    st.bump("bpmap_unparsed");
+                    return "served unparsed".to_string();
+                }
+                let mut overlay = HashMap::new();
+                overlay.insert("t.sym".to_string(), Arc::from(text.into_boxed_slice()));
+                overlay.insert("t.symindex".to_string(), Arc::from(idx.into_boxed_slice()));
+                let sm = SymbolManager::with_helper(MemHelper { overlay });
+                let map = match futures::executor::block_on(sm.load_symbol_map_from_location(Loc("t.sym".into()), None)) {
+                    Ok(m) => m,
+                    Err(_) => {
+                        st.bump("bpmap_notbreakpad");
+                        return "served notbreakpad".to_string();
+                    }
+                };
+                st.bump("bpmap_served");
+                let mut looks: Vec<String> = Vec::new();
+                for a in &addrs {
+                    let Some(a) = a else {
+                        let names = catch_unwind(AssertUnwindSafe(|| {
+                            map.iter_symbols().map(|(a, n)| format!("{a}:{}", hex(n.as_bytes()))).collect::<Vec<String>>()
+                        }));
+                        match names {
+                            Ok(ns) => {
+                                st.bump("bpmap_iter");
+                                looks.push(format!("iter {} {}", ns.len(), ns.join(",")).trim_end().to_string());
+                            }
+                            Err(_) => {
+                                // (the cache mutex is poisoned now; the model stops here as well)
+                                looks.push("iter panic".to_string());
+                                break;
+                            }
+                        }
+                        continue;
+                    };
+                    let r = catch_unwind(AssertUnwindSafe(|| map.lookup_sync(LookupAddress::Relative(*a)))).map_err(|_| ());
+                    let l = look_line(*a, r, &mut st);
+                    st.bump(&format!("bpmap_look_{}", l.split(' ').next().unwrap_or("")));
+                    looks.push(l);
+                }
+                format!("served {}", looks.join(" ; "))
+            });
+            stats.merge(&st);
+            r
+        }
+        ["bigsym", nfuncs, nlines, nfiles, seed] => {
+            let (nfuncs, nlines, nfiles, seed): (u64, u64, u64, u64) =
+                (nfuncs.parse().ok()?, nlines.parse().ok()?, nfiles.parse().ok()?, seed.parse().ok()?);
+            let mut st = Stats::default();
+            let r = guarded(|| {
+                let (text, addrs) = big_sym(nfuncs, nlines, nfiles, seed);
+                let n = text.len();
+                st.bump(&format!("bigsym_size{}", size_class(n)));
+                st.bump(&format!("served_sym_size{}", size_class(n)));
+                let mut overlay = HashMap::new();
+                overlay.insert("t.sym".to_string(), Arc::from(text.into_boxed_slice()));
+                let sm = SymbolManager::with_helper(MemHelper { overlay });
+                let t0 = own_cpu();
+                // the 1 MiB chunk loop of make_index_storage (symbol_map.rs:71-90), then lookups and a request
+                let map = match futures::executor::block_on(sm.load_symbol_map_from_location(Loc("t.sym".into()), None)) {
+                    Ok(m) => m,
+                    Err(e) => return format!("load-error {}", e.to_string().replace(' ', "_")),
+                };
+                let mut hits = 0;
+                for a in &addrs {
+                    if let Some(i) = map.lookup_sync(LookupAddress::Relative(*a)) {
+                        hits += 1;
+                        if a.checked_sub(i.symbol.address).is_none() {
+                            return "neg-offset".to_string();
+                        }
+                    }
+                }
+                if hits == 0 {
+                    return "no-hits".to_string();
+                }
+                let stack: Vec<String> = addrs.iter().take(200).map(|a| format!("[0,{a}]")).collect();
+                let body = format!("{{\"memoryMap\":[[\"t\",\"{MODULE_ID}\"]],\"stacks\":[[{}]]}}", stack.join(","));
+                let resp = futures::executor::block_on(Api::new(&sm).query_api("/symbolicate/v5", &body));
+                match serde_json::from_str::<serde_json::Value>(&resp) {
+                    Ok(serde_json::Value::Object(o)) => {
+                        if let Err(why) = response_shape("/symbolicate/v5", &body, &o) {
+                            return format!("badshape {why}");
+                        }
+                    }
+                    Ok(_) => return "notobject".to_string(),
+                    Err(_) => return "badjson".to_string(),
+                }
+                // size-relative CPU budget of the calling thread: 0.2 s + 3 ns * n * log2 n (n = bytes of the file).
+                // Measured on the harness profile: about 0.3 ns * n * log2 n (2 MiB: 14 ms; 4 MiB: 30 ms), i.e. a
+                // margin of 10x and more; an insertion-based sort on the 40 000-block descending file needs 1 s.
+                let used = own_cpu().saturating_sub(t0);
+                let budget = Duration::from_millis(200) + Duration::from_nanos((3.0 * n as f64 * (n as f64).log2()) as u64);
+                st.add("bigsym_cpu_ms", used.as_millis() as u64);
+                st.add("bigsym_bytes", n as u64);
+                if used > budget {
+                    return format!("slow bytes={n} cpu_ms={} budget_ms={}", used.as_millis(), budget.as_millis());
+                }
+                "fine".to_string()
+            });
+            stats.merge(&st);
+            stats.bump(&format!("bigsym_{}", r.split(' ').next().unwrap_or("")));
+            r
+        }
         ["debugid", s] => {
             let s = utf8(s)?;
+            let all_hex = !s.is_empty() && s.bytes().all(|b| b.is_ascii_hexdigit());
             let r = guarded(|| {
-                let _ = samply_api::debugid::DebugId::from_breakpad(&s);
-                "fine".to_string()
+                let r = samply_api::debugid::DebugId::from_breakpad(&s);
+                if all_hex { if r.is_ok() { "id-ok" } else { "id-err" }.to_string() } else { "fine".to_string() }
             });
             stats.bump(&format!("debugid_{r}"));
             r
@@ -489,17 +962,30 @@ impl Prop for C08 {
     fn case_count(&self, tier: Tier) -> u64 {
         match tier {
             Tier::Quick => 4000,
-            Tier::Thorough => 150_000,
+            Tier::Thorough => 130_000,
         }
     }
     fn fixed_cases(&self, tier: Tier) -> Vec<Case> {
+        let mut rng = Rng::new(0xC08A);
         gen::fixed_cases(tier)
+            .into_iter()
+            .map(|c| Case { name: c.name, ops: with_response_texts(c.ops, &mut rng, 1, 1) })
+            .collect()
     }
     fn generate(&self, rng: &mut Rng, tier: Tier, index: u64) -> Vec<String> {
-        gen::generate(rng, tier, index)
+        let ops = gen::generate(rng, tier, index);
+        let den = if tier == Tier::Quick { 6 } else { 40 };
+        with_response_texts(ops, rng, 1, den)
     }
     fn setup(&self, _tier: Tier) {
         let _ = base_files();
+    }
+    /// cases run in child processes: a stack overflow, an abort or an out-of-memory kill of the code under
+    /// test becomes the outcome `crash:<how>` of one case (with a shrunk replay) instead of a dead harness.
+    /// The per-operation hang criterion stays the in-process CPU-time watchdog; the child's wall-clock limit
+    /// (120 s per 8 cases) is only the backstop.
+    fn isolate(&self) -> Option<(u64, u64)> {
+        Some((120, 8192))
     }
     fn execute(&self, ops: &[String], stats: &mut Stats) -> Vec<String> {
         let (tx, rx) = std::sync::mpsc::channel();
@@ -567,7 +1053,7 @@ impl Prop for C08 {
         ops.len() == out.len()
             && out.iter().zip(ops).any(|(o, op)| {
                 o.starts_with("ok ") || o.starts_with("sym ") || o.starts_with("line ") || o.starts_with("frames ")
-                    || o == "parsed" || (o == "fine" && !op.starts_with("debugid"))
+                    || o == "parsed" || (o == "fine" && !op.starts_with("debugid")) || o == "id-ok" || o.starts_with("served sym") || o.starts_with("served none") || o.starts_with("resp ") || o.starts_with("json ")
             })
     }
 }
